@@ -98,16 +98,20 @@ fn with_dups<T: Clone>(v: Vec<T>, dup: Dup, key_of: impl Fn(&T) -> u64, fired: &
     if dup.permille == 0 {
         return v;
     }
-    let mut out = v.clone();
-    for x in &v {
+    // originals keep their relative order (odd slots); every duplicate copy is dropped into a seeded slot
+    // between two originals (even slots) — O(n log n), also for the full ontology
+    let n = v.len() as u64;
+    let mut slots: Vec<(u64, u64, usize)> = v.iter().enumerate().map(|(i, _)| (2 * i as u64 + 1, 0, i)).collect();
+    for (i, x) in v.iter().enumerate() {
         let k = key_of(x);
         for j in 0..dup.hits(k) {
-            let pos = (mix2(dup.seed ^ (0xABCD + u64::from(j)), k) % (out.len() as u64 + 1)) as usize;
-            out.insert(pos, x.clone());
+            let pos = mix2(dup.seed ^ (0xABCD + u64::from(j)), k) % (n + 1);
+            slots.push((2 * pos, mix2(k, u64::from(j)), i));
             *fired += 1;
         }
     }
-    out
+    slots.sort_unstable();
+    slots.into_iter().map(|(_, _, i)| v[i].clone()).collect()
 }
 
 #[derive(Clone, Debug, PartialEq, Eq, Serialize, Deserialize)]
